@@ -647,6 +647,7 @@ pub struct Batch {
     pub determinism_reexecuted: u64,
     pub determinism_mismatches: u64,
     pub gcs_inside_requests: u64,
+    pub hashes: Vec<u64>,
 }
 
 struct One {
@@ -721,6 +722,7 @@ pub fn batch(root: u64, histories: u64, workers: usize) -> Batch {
     let mut b = Batch { histories, ..Default::default() };
     let mut sigs = std::collections::HashSet::new();
     for r in &results {
+        b.hashes.push(r.log_hash);
         if r.faulted {
             b.faulted_histories += 1;
         }
